@@ -84,6 +84,24 @@ INDEX = {
  "C07-3": ("a refused stale-parent commit still overwrites the stored redo/undo records of the real commit at that height",
            "Add on a known stale parent, then a historical view below it not cached yet, a Pop through that height, or GetPatch"),
  "C07-4": ("the scan of a delete-enabled store skips only one tombstone in a row", "two deleted keys adjacent in key order inside the scanned prefix"),
+ "C08-3": ("rollback deletes the stored redo/undo patches of the height in its own write before applying the undo in the batch", "a process death between the two writes of a rollback"),
+ "C08-4": ("commit stores the undo patch with a separate write after the atomic batch", "a process death between the commit batch and the undo write"),
+ "C09-3": ("token supply cap off by one: maxSupply = 2^255 accepted; IssueToken's payout exceeds what the verifier allows for a send, the receive fails with an internal error (no refund) and the token contract's inbox is wedged",
+           "IssueToken with totalSupply = maxSupply = 2^255 exactly"),
+ "C09-4": ("a contract's data-less send to another contract is no longer validated: an HTLC payout to an embedded address lands in that contract's inbox without a method; its receive panics",
+           "htlc.Create with an embedded contract as hash-lock beneficiary, then Unlock before expiry"),
+ "C10-3": ("sentinel registration accepts the collateral amount in any token; the entry records 5000 ZNN which Revoke pays out", "a Register block paying 5000e8 of another token from an account with a sufficient QSR deposit"),
+ "C10-4": ("pillar lock window compared against the revoke-window length: collateral released earlier than the lock allows", "lock and revoke windows of different lengths, a Revoke between the two positions of the cycle"),
+ "C11-3": ("(same slip as C02-3, demonstrated on rewards) ExpectedNum / FactualNum swapped when a consensus point is decoded: a restarted node credits other pillar rewards, above the epoch's emission",
+           "a pillar that missed a slot, a restart before that epoch's pillar Update"),
+ "C11-4": ("liquidity over-distribution guard uses && instead of ||: shares of one coin summing to 10000 only modulo 2^32 credit far more than the emission",
+           "the administrator sets wrapped shares for one coin, a staker of the over-weighted token, an epoch Update"),
+ "C12-3": ("plasma.Fuse validation uses && instead of ||: a Fuse paid in another token is accepted and gives plasma", "a Fuse call carrying ZNN or another token"),
+ "C12-4": ("base cost taken from the block's own BasePlasma field (outside the hash) when non-zero", "a block from a peer / over RPC stating a small basePlasma and paying less than its true cost"),
+ "C13-3": ("signature verification looks at the first 64 bytes only: a signature followed by more bytes verifies", "a relayed variant of an unconfirmed block with bytes appended to its signature"),
+ "C13-4": ("pillar Delegate no longer rewrites its call data to the canonical packing", "a Delegate call with non-canonical call data (offsets, padding, trailing bytes) hashed and signed over those bytes"),
+ "C14-3": ("hash tie-break applied even when the plasma ratios differ: no antisymmetric winner, nodes keep what they saw first", "two competing blocks, the higher-ratio one with the larger hash arriving second"),
+ "C14-4": ("the pool's per-account version manager applies a new block in place on its parent's state", "a reader holding a view across an insertion, or any fork replacement"),
 }
 
 CAUGHT = json.load(open("/verif/seeded/results.json")) if os.path.exists("/verif/seeded/results.json") else {}
